@@ -1416,12 +1416,86 @@ def run_c17(ctx):
     cov["rule"] = "CLI invocations (detect text/JSON/filter, 5 printers) x programs (adversarial layouts + random) for which the model completes without exception; non-trivial = structured program"
 
 
+# ----------------------------------------------------------------------------- C18: row texts of the node labels
+# independent reading of Model/Rows.v (esc, mark, strip of the source line, comments_between); NOT html.escape
+ROWS_DIRECTED = (
+    '#pragma version 6\n// call <the> "routine" & more\n  callsub sub1\nint 1  // <ok> & \'fine\'\nbyte "a<b>&c"\npop\n'
+    "// two comment\n\n// lines > one\ntxn ApplicationID\npop\nreturn\nsub1:\n  retsub"
+)
+
+
+def rows_esc(s):
+    table = {"&": "&amp;", "<": "&lt;", ">": "&gt;", '"': "&quot;", "'": "&#x27;"}
+    return "".join(table.get(c, c) for c in s)
+
+
+def expected_label_rows(text, blocks):
+    """per block idx: [(line, raw text html, raw html of the source comments before)] as Model/Rows.block_rows renders"""
+    src = text.split("\n")
+    order = sorted((ln, b["idx"], k) for b in blocks for k, ln in enumerate(b["lines"]))
+    all_lines = sorted(ln for b in blocks for ln in b["lines"])
+    out = {}
+    for b in blocks:
+        rows = []
+        for ln, ins in zip(b["lines"], b["ins"]):
+            t = rows_esc(src[ln - 1].strip())
+            if ins.split()[0] in ("callsub", "retsub"):
+                t = "<B><I>" + t + "</I></B>"
+            rows.append((ln, t))
+        out[b["idx"]] = rows
+    del order, all_lines
+    return out
+
+
+def check_label_rows(what, dot_text, text, blocks, bad, only=None):
+    import cli
+    cells = cli.parse_dot_cells(dot_text)
+    exp = expected_label_rows(text, blocks)
+    src = text.split("\n")
+    n = 0
+    for b in blocks:
+        if only is not None and b["idx"] not in only:
+            continue
+        node = cells.get(b["idx"])
+        n += 1
+        if node is None:
+            bad(f"{what}: no label for block {b['idx']}")
+            return n
+        if node["junk"] or node["head"] is None:
+            bad(f"{what}: block {b['idx']}: label is not header cell + instruction rows: {node['junk'][:2]}")
+            return n
+        got = [(ln, t) for _, _, ln, t in node["rows"]]
+        if got != exp[b["idx"]]:
+            bad(f"{what}: block {b['idx']} shows rows {got}, Model/Rows.block_rows gives {exp[b['idx']]}")
+            return n
+        if node["head"][0] != b["lines"][0] or not node["head"][2].startswith(f"// block_id = {b['idx']}; cost = "):
+            bad(f"{what}: block {b['idx']}: header {node['head']}, expected PORT {b['lines'][0]} and the block_id comment first")
+            return n
+        for (colour, pre, ln, _), ins in zip(node["rows"], b["ins"]):
+            # source comments shown in the row: exactly the comment lines directly accumulated before this instruction
+            k = ln - 2
+            cs = []
+            while k >= 0 and (src[k].strip().startswith("//") or not src[k].strip()):
+                if src[k].strip().startswith("//"):
+                    cs.insert(0, rows_esc(src[k].strip()))
+                k -= 1
+            before = "<BR/>".join(cs) + "<BR/>" if cs else ""
+            tealer = "<B>// ApplicationID is 0 in Creation Txn</B><BR/>" if ins == "txn ApplicationID" else None
+            ok = pre.endswith(before) and (pre[: len(pre) - len(before)] == tealer if tealer is not None else
+                                           (pre[: len(pre) - len(before)] == "" or ins.split()[0] == "method"))
+            if not ok or colour != "BLACK":
+                bad(f"{what}: block {b['idx']} line {ln}: comments part {pre!r} (colour {colour}), expected {tealer or ''!r} + {before!r}")
+                return n
+    return n
+
+
 def run_c18(ctx):
     """exported DOT files / JSON read back and compared with the model's graph and paths"""
     import cli
     cov = ctx["cov"]
     rng = ctx["rng"]
     progs = cli_programs(ctx, 14 if ctx["tier"] == "quick" else 200)
+    progs = list(progs) + [("rows-directed", ROWS_DIRECTED)]   # characters html.escape rewrites, comments, callsub / retsub
     reqs = [("analyze", f"p{n}", t, []) for n, (_, t) in enumerate(progs)]
     m, _i = corr.run_both(reqs)
     # the filter pattern is derived from the internal result (model) so that every kind of outcome is exercised
@@ -1521,6 +1595,8 @@ def run_c18(ctx):
                 if b["idx"] in d["nodes"] and d["nodes"][b["idx"]]["rows"] != exp_rows:
                     bad(f"cfg DOT node {b['idx']} shows {d['nodes'][b['idx']]['rows']}, block has {exp_rows}")
                     break
+            # RAW row texts (escaping and markup kept) against Model/Rows.block_rows / render_row (RowsGenLemmas)
+            nfacts += check_label_rows("cfg DOT", cfgdot[0], text, mm["blocks"], bad)
         else:
             bad("cfg printer wrote no full_cfg.dot")
         # transaction-context printer: block annotations show the computed contexts (and block id / cost)
@@ -1560,6 +1636,7 @@ def run_c18(ctx):
                 bad(f"subroutine-cfg wrote no file for subroutine {s['name']}")
                 continue
             d = cli.parse_dot(fs[0])
+            nfacts += check_label_rows(f"subroutine-cfg {s['name']}", fs[0], text, mm["blocks"], bad, only=set(s["blocks"]))
             blocks = {b["idx"]: b for b in mm["blocks"]}
             sites = [b for b in s["blocks"] if b in blocks and blocks[b]["ins"][-1].startswith("callsub ")]
             if sorted(d["nodes"]) != sorted(s["blocks"]):
